@@ -5,6 +5,7 @@ CONSTANTS NK = 3
   KGen <- G3_211
   MaxN = 1
   OtherKinds <- OthersFew
+  RawModes <- RawNone
   D = 0
 INIT Init
 NEXT Next
